@@ -39,6 +39,8 @@ VALUES = [
     ["S", [["s", "a"], ["s", "b"], ["s", "c"], ["s", "d"]], "USet"], ["F", [["s", "a"], ["s", "b"], ["s", "c"], ["s", "d"]], "UFrozenSet"], ["S", [["s", "a"], ["s", "b"], ["s", "c"], ["s", "d"]]],
     ["D", [[["d", "NaN"], ["i", "1"]], [["d", "1"], ["i", "2"]]]], ["D", [[["d", "1"], ["i", "1"]], [["d", "2.5"], ["i", "2"]]]], ["d", "1"], ["d", "1.0"],
     ["D", [[["f", "nan"], ["S", [["i", "1"]]]], [["f", "nan"], ["S", [["i", "2"]]]]]], ["D", [[["f", "nan"], ["D", [[["i", "1"], ["i", "1"]]]]], [["f", "nan"], ["D", [[["i", "2"], ["i", "2"]]]]]]],
+    # bound methods as argument VALUES (callbacks, strategies): the method and the state of the instance it is bound to
+    ["m", ["i", "2"], "transform"], ["m", ["i", "5"], "transform"], ["m", ["i", "2"], "other"], ["L", [["m", ["s", "a"], "transform"]]],
 ]
 
 
@@ -200,6 +202,9 @@ TWINS = {
     json.dumps(["D", [[["s", "a"], ["i", "1"]], [["i", "2"], ["i", "4"]]], "defaultdict"]): [["D", [[["s", "a"], ["i", "1"]], [["i", "2"], ["i", "3"]]], "defaultdict"]],
     json.dumps(["S", [["s", "a"], ["s", "b"], ["s", "c"], ["s", "d"]], "USet"]): [["S", [["s", "a"], ["s", "b"], ["s", "c"], ["s", "d"]]], ["F", [["s", "a"], ["s", "b"], ["s", "c"], ["s", "d"]], "UFrozenSet"]],
     json.dumps(["d", "1"]): [["d", "1.0"], ["i", "1"], ["f", "1.0"]],
+    json.dumps(["m", ["i", "2"], "transform"]): [["m", ["i", "5"], "transform"], ["m", ["i", "2"], "other"], ["m", ["f", "2.0"], "transform"]],
+    json.dumps(["m", ["i", "5"], "transform"]): [["m", ["i", "2"], "transform"]],
+    json.dumps(["L", [["m", ["s", "a"], "transform"]]]): [["L", [["m", ["s", "b"], "transform"]]], ["L", [["m", ["y", "61"], "transform"]]]],
     json.dumps(["D", [[["f", "nan"], ["S", [["i", "1"]]]], [["f", "nan"], ["S", [["i", "2"]]]]]]): [["D", [[["f", "nan"], ["S", [["i", "1"]]]], [["f", "nan"], ["S", [["i", "3"]]]]]]],
 }
 
